@@ -14,6 +14,7 @@ from tqdm import tqdm
 import neuroglancer_scripts.accessor
 import neuroglancer_scripts.chunk_encoding
 from neuroglancer_scripts import data_types, precomputed_io
+from neuroglancer_scripts.sharded_base import ShardedAccessorBase
 
 logger = logging.getLogger(__name__)
 
@@ -65,6 +66,10 @@ def convert_chunks(source_url, dest_url, copy_info=False,
     )
     chunk_reader = precomputed_io.get_IO_for_existing_dataset(source_accessor)
     source_info = chunk_reader.info
+    if copy_info and ShardedAccessorBase.info_is_sharded(source_info):
+        # The destination has no info file yet, so the sharded accessor has
+        # to be requested explicitly
+        options = dict(options, sharding=True)
     dest_accessor = neuroglancer_scripts.accessor.get_accessor_for_url(
         dest_url, options
     )
